@@ -15,7 +15,18 @@ vars == <<l>>
 
 CtorOK(ev) == ev.o = "ok" /\ ev.null = ExpectNull(ev.kind, ev.file_ok, ev.ref_alist_ok, ev.name, ev.pat_tokens, ev.tail_inv)   \* tail_inv: the harness's own elimination (oracle)
 DecodeOK(ev) == ev.o = "ok" /\ DecodeRel(ev.ret, ev.out, ev.out_len, ev.ref)
-EncodeOK(ev) == ev.o = "ok" /\ Len(ev.ref) > 0 /\ ev.out = ev.ref
+\* the codeword the C encoder must write, computed by the specification (Encoder.tla + Chain.tla) from the matrix, the bytes and the
+\* pattern - small matrices only (hrows non-empty); bytes other than 0/1 are judged against a fresh handle (independence of calls)
+En == INSTANCE Encoder
+Ch == INSTANCE Chain
+SpecCodeword(ev) ==
+  LET H == En!Dense(ev.hrows, ev.hn)  enc == En!FromH(H)  K == ev.hn - Len(ev.hrows)
+      msg == [t \in 1..K |-> IF ev.bits[t] = 1 THEN 1 ELSE 0]
+      P == IF ev.pat_tokens = <<>> THEN <<TRUE>> ELSE [t \in 1..Len(ev.pat_tokens) |-> ev.pat_tokens[t] = "1"]
+  IN Ch!Puncture(En!Encode(enc, msg), P)
+EncodeOK(ev) ==
+  /\ ev.o = "ok" /\ Len(ev.ref) > 0 /\ ev.out = ev.ref
+  /\ ((ev.hrows # <<>> /\ ~ev.nonbit /\ Len(ev.bits) = ev.hn - Len(ev.hrows)) => ev.out = SpecCodeword(ev))
 
 EvOK(ev) == CASE ev.e = "Ctor" -> CtorOK(ev) [] ev.e = "Decode" -> DecodeOK(ev) [] ev.e = "Encode" -> EncodeOK(ev) [] OTHER -> FALSE
 
